@@ -128,6 +128,27 @@ func runC04(args []string) error {
 			one(c)
 		}
 	}
+	// non-square precincts under the position-driven progressions: the precinct grid then has different periods in x and y,
+	// and the image must span several precinct rows/columns (heights and widths beyond the usual size bound)
+	nPrec := 24
+	if f.exh >= 2 {
+		nPrec = 200
+	}
+	for i := 0; i < nPrec; i++ {
+		pw, ph := []int{32, 64, 32, 128, 64, 32}[i%6], []int{64, 32, 128, 32, 128, 256}[i%6]
+		c := rtCase{API: "j2k", Lossless: true, C: 1 + i%3, P: []int{8, 12, 5, 16}[i%4], Levels: r.Intn(3), CBW: []int{4, 8, 16, 32}[r.Intn(4)], CBH: []int{4, 8, 16, 32}[r.Intn(4)],
+			PrecW: pw, PrecH: ph, Prog: []int{2, 3, 4, 2, 3, 4, 0, 1}[i%8], Layers: 1 + i%2, MCT: i%2 == 0, Cls: "noise"}
+		// several precincts along the long axis, few samples along the other (keeps the trace small)
+		if pw < ph {
+			c.W, c.H = 8+r.Intn(40), ph+1+r.Intn(2*ph)
+		} else {
+			c.W, c.H = pw+1+r.Intn(2*pw), 8+r.Intn(40)
+		}
+		if c.W*c.H*c.C > 9000 {
+			c.C = 1
+		}
+		one(c)
+	}
 	// "lenff": single code-block, no decomposition, noise sized so that the code-block length lands
 	// around 2^k-1: the packet header then ends in a full 0xFF byte (stuffing + byte alignment).
 	nLen := 6
